@@ -100,7 +100,7 @@ func genC07Case(t *rapid.T) C07Case {
 			l.Destination = spec.IdP.Advertised("slo", s.Host)
 		}
 		if rapid.Bool().Draw(t, "noa") {
-			l.NotOnOrAfter = spsim.Rel(rapid.SampledFrom([]int{10, 300, 86400}).Draw(t, "noaoff"), rapid.IntRange(0, 9).Draw(t, "noafrac"), "")
+			l.NotOnOrAfter = spsim.Rel(rapid.SampledFrom([]int{60, 300, 86400}).Draw(t, "noaoff"), rapid.IntRange(0, 9).Draw(t, "noafrac"), "")
 		}
 		if rapid.Bool().Draw(t, "reason") {
 			l.Reason = "urn:oasis:names:tc:SAML:2.0:logout:user"
